@@ -19,6 +19,7 @@ def _frame(rng, natom, nbond, mag, title, data_items=False):
     coords = np.round(rng.uniform(-mag, mag, size=(natom, 3)), 4)
     bonds = []
     seen = set()
+    nbond = min(nbond, natom * (natom - 1) // 2)
     while len(bonds) < nbond:
         i, j = (int(v) for v in rng.integers(0, natom, size=2))
         if i == j or (min(i, j), max(i, j)) in seen:
